@@ -260,7 +260,8 @@ class InterpBuiltins:
 
     def bi_set(self, args, kw, line):
         if not args:
-            return SymSet(None, ANY)   # empty set of yet unknown element type
+            # fresh empty heap set; its element type (hence its SMT sort) is fixed by the first add()
+            return SetV(self.alloc('set'), ANY)
         v = args[0]
         if isinstance(v, GenV):
             return self.ev_SetComp(ast.SetComp(elt=v.node.elt, generators=v.node.generators), v.frame)
@@ -619,6 +620,23 @@ class InterpBuiltins:
         raise Unsupported(f'dict method {name} at line {line}')
 
     def set_method(self, s, name, args, kw, line):
+        if isinstance(s, SetV) and s.ety == ANY:
+            if name in ('add', 'update'):
+                if name == 'add':
+                    s.ety = self.value_type(args[0])
+                else:
+                    items = self.iter_const(args[0])
+                    s.ety = self.value_type(items[0]) if items else self.elem_type(args[0])
+                if isinstance(s.ety, TOpt) or s.ety in (NONE, ANY):
+                    raise Unsupported('set of None / unknown element type')
+                nme, a = self.set_arr(s)
+                self.heap.set(nme, z3.Store(a, s.ref, z3.K(sort_of(s.ety), z3.BoolVal(False))))
+            elif name in ('discard', 'clear'):
+                return None
+            elif name == 'copy':
+                return SetV(self.alloc('set'), ANY)
+            else:
+                raise Unsupported(f'set method {name} on an empty set of unknown element type')
         if name == 'add':
             self.set_update(s, args[0], True)
             return None
